@@ -38,8 +38,11 @@ func (h *receivedPacketHistory) ReceivedPacket(p protocol.PacketNumber) bool /* 
 	isNew := h.addToRanges(p)
 	// Delete old ranges, if we're tracking too many of them.
 	// This is a DoS defense against a peer that sends us too many gaps.
-	if len(h.ranges) > protocol.MaxNumAckRanges {
-		h.ranges = slices.Delete(h.ranges, 0, len(h.ranges)-protocol.MaxNumAckRanges)
+	if n := len(h.ranges) - protocol.MaxNumAckRanges; n > 0 {
+		// We forget the oldest ranges. From now on we can't tell any more if a packet at or below
+		// them was received before, so all of them have to be treated as (potential) duplicates.
+		h.deletedBelow = max(h.deletedBelow, h.ranges[n-1].End+1)
+		h.ranges = slices.Delete(h.ranges, 0, n)
 	}
 	return isNew
 }
